@@ -161,20 +161,20 @@ theorem d_gFunc : Der Γ Δ Z F gFunc (PReal Z) := by
 
 theorem d_gGlobalVar : Der Γ Δ Z F gGlobalVar (PReal Z) := by
   unfold gGlobalVar
-  refine Der.map (Q := PSeqN [PAny, POpt (PLeaf Z), PLeaf Z, PLeaf Z, PReal Z, PList (PLeaf Z), PSeqN [PAny, POpt (PReal Z)]]) ?_ ?_
+  refine Der.map (Q := PSeqN [PAny, POpt (PLeaf Z), PLeafT Z, PLeaf Z, PReal Z, PList (PLeaf Z), PSeqN [PAny, POpt (PReal Z)]]) ?_ ?_
   · der_seq
     · exact d_optAnn hc
     · exact Der.opt (Der.tok _)
-    · exact Der.tok _
+    · exact Der.tokT _ (by decide)
     · exact Der.tok _
     · exact r_type hc
     · exact hc.1 nMemberMods
     · exact Der.dep (Der.anyOpt good_leaf (Der.tok _)) (r_identifier hc)
-  · rintro lo hi v ⟨_, rfl, v0, _, m1, rfl, h0, v1, _, m2, rfl, h1, v2, _, m3, rfl, h2, v3, _, m4, rfl, h3, v4, _, m5, rfl, h4, v5, _, m6, rfl, h5, v6, _, m7, rfl, ⟨_, rfl, w0, _, n1, rfl, h6, w1, _, n2, rfl, h7, rfl, hend2⟩, rfl, hend⟩
+  · rintro lo hi v ⟨_, rfl, v0, _, m1, rfl, h0, v1, _, m2, rfl, h1, v2, _, m3, rfl, ⟨h2, g2⟩, v3, _, m4, rfl, h3, v4, _, m5, rfl, h4, v5, _, m6, rfl, h5, v6, _, m7, rfl, ⟨_, rfl, w0, _, n1, rfl, h6, w1, _, n2, rfl, h7, rfl, hend2⟩, rfl, hend⟩
     nth_simp
     have e0 : lo.le m1 = true := h0
     have e1 := POpt.le good_leaf h1
-    have f2 := h2.facts; have g2 := h2.e_le; have f3 := h3.facts; have f4 := h4.facts
+    have f2 := h2.facts; have f3 := h3.facts; have f4 := h4.facts
     obtain ⟨hmods, _⟩ := modsNode_ok h5
     have e5 := POpt.le good_real hmods
     have e6 : m6.le n1 = true := h6
